@@ -85,6 +85,12 @@ def corpus_defs(tier):
     ], runs=[
         dict(alpha=[0, 1, 2, 3, 255], maxlen=7 if q else 9, cfg=False),
     ])
+    d['fnobu'] = dict(trace='TraceFn', kind='fnt', runs=[
+        # OBU-framing-relevant bytes: headers with / without size field and extension, temporal delimiter, leb128 continuation, forbidden bit
+        dict(alpha=[0x0a, 0x08, 0x0e, 0x12, 0x00, 0x01, 0x80, 0xff], maxlen=4 if q else 6, cfg=False),
+        # VP9 marker and header bytes
+        dict(alpha=[0x49, 0x83, 0x42, 0x00, 0x10, 0x80, 0x0c, 0x01], maxlen=4 if q else 6, cfg=False),
+    ])
     d['fncfg'] = dict(trace='TraceFn', kind='fnt', runs=[
         dict(alpha=[0, 1, 0x67, 0x68, 0x65], maxlen=6 if q else 8, cfg=True),
         dict(alpha=[0, 1, 0x40, 0x42, 0x44, 0x26], maxlen=5 if q else 7, cfg=True),
